@@ -75,7 +75,15 @@ StepFailed(uni, call, before, after) ==
         m == ModelStep(uni, [b EXCEPT !.cands = {}, !.regions = {}], call)   \* only the deterministic sets are read from m
         rebuilt == call.op = "CreateRegions" \/ (call.op \in {"ClearSubs", "ClearCands", "ClearProtos"} /\ b.regions # {})
         order == ProtoSeq(b.protos)
+        once(seq) == \A i, j \in DOMAIN seq : i # j => seq[i] # seq[j]
     IN  (IF a.genes # m.genes THEN {"genes_as_added"} ELSE {})
+        (* what an area lists - its genes, a candidate's protoclusters, a region's candidates and subregions - it lists once
+           (the abstract state holds these as sets, so a doubled entry would go unnoticed there) *)
+        \cup (IF \E i \in DOMAIN after.cands : ~once(after.cands[i].members) \/ ~once(after.cands[i].kids) THEN {"candidate_lists_each_entry_once"} ELSE {})
+        \cup (IF \E i \in DOMAIN after.regions : ~once(after.regions[i].cands) \/ ~once(after.regions[i].subs) \/ ~once(after.regions[i].kids)
+              THEN {"region_lists_each_entry_once"} ELSE {})
+        \cup (IF \E i \in DOMAIN after.protos : ~once(after.protos[i].kids) \/ ~once(after.protos[i].defs) THEN {"protocluster_lists_each_entry_once"} ELSE {})
+        \cup (IF \E i \in DOMAIN after.subs : ~once(after.subs[i].kids) THEN {"subregion_lists_each_entry_once"} ELSE {})
         \cup (IF a.protos # m.protos THEN {"protoclusters_as_added_or_cleared"} ELSE {})
         \cup (IF a.subs # m.subs THEN {"subregions_as_added_or_cleared"} ELSE {})
         \cup (CASE call.op = "CreateCandidates" ->
